@@ -904,7 +904,7 @@ def generate(template_path, repo, canary=False, contracts_dir=None, exclude=None
             continue
         if s.startswith("//@body "):
             spec = parse_kv(s[len("//@body "):])
-            loop_inv, inserts, skips = {}, [], []
+            loop_inv, inserts, skips, outlines = {}, [], [], []
             j = i + 1
             while tl[j].strip() != "//@endbody":
                 d = tl[j].strip()
@@ -917,6 +917,11 @@ def generate(template_path, repo, canary=False, contracts_dir=None, exclude=None
                         k += 1
                     loop_inv[n] = subst("\n".join(buf))
                     j = k + 1
+                    continue
+                m = re.match(r'//@outline\s+unit=(\S+)\s+call="(.*)"$', d)
+                if m:
+                    outlines.append((m.group(1), m.group(2)))
+                    j += 1
                     continue
                 m = re.match(r"//@skip\s+/(.+?)/\.\./(.+?)/\s*(?:#(\d+))?$", d)
                 if m:
@@ -962,6 +967,29 @@ def generate(template_path, repo, canary=False, contracts_dir=None, exclude=None
                 if mine is None or plist(mine) != plist(real_sig):
                     raise LostAnchor("unit %s: parameter list of %s::%s changed: `%s` vs wrapper `%s`" % (
                         unit, spec.get("impl", ""), spec["fn"], plist(real_sig), plist(mine) if mine else None))
+            G.units[unit]["part"] = spec.get("part", "whole")
+            G.units[unit]["raw"] = text
+            G.units[unit]["src"] = (spec["file"], spec.get("impl"), spec["fn"])
+            # `//@outline unit=U call="..."`: the statement region that unit U verifies as a function of its own (same file, same
+            # function, same region expression) is replaced by a CALL to that function, so this unit sees only U's contract.
+            # Outlining a block into a function over the variables it mentions preserves behaviour when the block has no
+            # break / continue / return (scanned) - that every free variable is a parameter is checked by rustc.
+            for (ou, call) in outlines:
+                if ou not in G.units or not G.units[ou].get("part", "").startswith("region:"):
+                    raise LostAnchor("unit %s: outline refers to unit %s which is not a region unit defined earlier" % (unit, ou))
+                if G.units[ou]["src"] != (spec["file"], spec.get("impl"), spec["fn"]):
+                    raise LostAnchor("unit %s: outlined unit %s is cut from a different function" % (unit, ou))
+                mm = re.match(r"region:/(.+?)/\.\./(.+?)/(?:#(\d+))?$", G.units[ou]["part"])
+                s0, e0 = region_span(text, mm.group(1), mm.group(2), int(mm.group(3) or 1))
+                if text[s0:e0].strip() != G.units[ou]["raw"].strip():
+                    raise LostAnchor("unit %s: the region outlined for %s is not the text that unit verifies" % (unit, ou))
+                code = re.sub(r"//[^\n]*", "", text[s0:e0])
+                code = re.sub(r'"(?:[^"\\\\]|\\\\.)*"', '""', code)
+                if re.search(r"\b(break|continue|return)\b", code):
+                    raise LostAnchor("unit %s: outlined region of %s contains control flow" % (unit, ou))
+                G.units[unit]["drops"].append("outline: lines %d-%d (the region verified by unit %s) replaced by a call to that unit's function `%s`"
+                                              % (first_line + text.count("\n", 0, s0), first_line + text.count("\n", 0, e0), ou, call))
+                text = text[:s0] + call + "\n" * text[s0:e0].count("\n") + text[e0:]
             # statements dropped from the unit (`//@skip /re1/../re2/ [#k]`), after a syntactic non-interference scan:
             # no break/continue/return inside, no write to a variable listed in `protect=`
             if skips:
